@@ -55,6 +55,7 @@ func main() {
 	copyPkgs := flag.String("copy", "internal/ast,internal/orderedmap", "package path suffixes whose DeepCopy methods are monitored")
 	sitesOut := flag.String("sites", "", "write the list of map-range sites here")
 	noTick := flag.Bool("notick", false, "do not insert Enter/Leave/Tick")
+	depPkgs := flag.String("deps", "", "dependency mode: comma separated package paths (resolved from -dir's module) whose map ranges are put behind the seam with the three-clause rewrite; nothing else is touched")
 	flag.Parse()
 	if *dir == "" {
 		fmt.Fprintln(os.Stderr, "instrument: -dir required")
@@ -69,7 +70,15 @@ func main() {
 		Dir:   *dir,
 		Tests: false,
 	}
-	pkgs, err := packages.Load(cfg, "./...")
+	patterns := []string{"./..."}
+	depMode := *depPkgs != ""
+	if depMode {
+		patterns = strings.Split(*depPkgs, ",")
+		*noTick = true
+		skips = nil
+		copies = nil
+	}
+	pkgs, err := packages.Load(cfg, patterns...)
 	if err != nil {
 		fmt.Fprintln(os.Stderr, "instrument: load:", err)
 		os.Exit(2)
@@ -113,7 +122,7 @@ func main() {
 				fmt.Fprintln(os.Stderr, "instrument:", err)
 				os.Exit(2)
 			}
-			in := &instr{pkg: p, file: f, fset: p.Fset, src: src, noTick: *noTick, monitorCopies: monitorCopies}
+			in := &instr{pkg: p, file: f, fset: p.Fset, src: src, noTick: *noTick, monitorCopies: monitorCopies, depMode: depMode}
 			in.run()
 			unroutable += in.unroutable
 			sites = append(sites, in.sites...)
@@ -126,6 +135,10 @@ func main() {
 				os.Exit(2)
 			}
 		}
+	}
+	if unroutable > 0 && depMode {
+		fmt.Fprintf(os.Stderr, "instrument: %d map enumeration(s) in dependencies keep the runtime's order\n", unroutable)
+		unroutable = 0
 	}
 	if unroutable > 0 {
 		fmt.Fprintf(os.Stderr, "instrument: %d map enumeration(s) could not be routed through the seam\n", unroutable)
@@ -150,12 +163,14 @@ type instr struct {
 	edits         []edit
 	sites         []site
 	noTick        bool
+	depMode       bool
 	monitorCopies bool
 	unroutable    int
 	usedOS        bool
 	usedFilepath  bool
 	wrappers      []string
 	perFunc       map[string]int
+	iterN         int
 }
 
 func (in *instr) off(p token.Pos) int { return in.fset.Position(p).Offset }
@@ -338,13 +353,34 @@ func (in *instr) run() {
 					keyT = m.Key().String()
 				}
 				in.sites = append(in.sites, site{ID: id, File: pos.Filename, Line: pos.Line, Key: keyT})
-				in.add(x.X.Pos(), "simrt.MapSeq(")
-				in.add(x.X.End(), fmt.Sprintf(", %q)", id))
+				if in.depMode {
+					in.threeClause(x, id)
+				} else {
+					in.add(x.X.Pos(), "simrt.MapSeq(")
+					in.add(x.X.End(), fmt.Sprintf(", %q)", id))
+				}
 				touched = true
 			}
 			return true
 		case *ast.CallExpr:
 			// map enumerations that are not range statements
+			if sel, ok := x.Fun.(*ast.SelectorExpr); ok && in.depMode {
+				if obj := info.Uses[sel.Sel]; obj != nil && obj.Pkg() != nil {
+					full := obj.Pkg().Path() + "." + obj.Name()
+					switch full {
+					case "maps.Keys", "maps.Values", "maps.All", "golang.org/x/exp/maps.Keys", "golang.org/x/exp/maps.Values":
+						in.unroutable++
+						fmt.Fprintf(os.Stderr, "instrument: %s: call to %s keeps the runtime's order (dependency)\n", in.fset.Position(x.Pos()), full)
+					}
+					if fn, ok := obj.(*types.Func); ok {
+						if sig, ok := fn.Type().(*types.Signature); ok && sig.Recv() != nil && sig.Recv().Type().String() == "reflect.Value" && (obj.Name() == "MapKeys" || obj.Name() == "MapRange") {
+							in.unroutable++
+							fmt.Fprintf(os.Stderr, "instrument: %s: reflect map enumeration keeps the runtime's order (dependency)\n", in.fset.Position(x.Pos()))
+						}
+					}
+				}
+				return true
+			}
 			if sel, ok := x.Fun.(*ast.SelectorExpr); ok {
 				if obj := info.Uses[sel.Sel]; obj != nil && obj.Pkg() != nil {
 					full := obj.Pkg().Path() + "." + obj.Name()
@@ -397,6 +433,9 @@ func (in *instr) run() {
 			}
 			return true
 		case *ast.SelectorExpr:
+			if in.depMode {
+				return true
+			}
 			if id, ok := x.X.(*ast.Ident); ok {
 				if pn, ok := info.Uses[id].(*types.PkgName); ok {
 					short := ""
@@ -434,6 +473,38 @@ func (in *instr) run() {
 	}
 	if touched {
 		in.add(in.file.Name.End(), ";import simrt \"verif.local/simrt\"")
+	}
+}
+
+// threeClause rewrites `for k, v := range m {` into
+// `for it := simrt.Iter(m, site); it.Next(); { k, v := it.K, it.V;` - the form that
+// compiles under go directives older than range-over-func.
+func (in *instr) threeClause(x *ast.RangeStmt, id string) {
+	in.iterN++
+	it := fmt.Sprintf("simIt%d_", in.iterN)
+	text := func(e ast.Expr) string { return string(in.src[in.off(e.Pos()):in.off(e.End())]) }
+	in.replace(x.For, x.X.Pos(), "for "+it+" := simrt.Iter(")
+	in.add(x.X.End(), fmt.Sprintf(", %q); %s.Next(); ", id, it))
+	var lhs, rhs []string
+	blank := func(e ast.Expr) bool {
+		if e == nil {
+			return true
+		}
+		i, ok := e.(*ast.Ident)
+		return ok && i.Name == "_"
+	}
+	if !blank(x.Key) {
+		lhs = append(lhs, text(x.Key))
+		rhs = append(rhs, it+".K")
+	}
+	if !blank(x.Value) {
+		lhs = append(lhs, text(x.Value))
+		rhs = append(rhs, it+".V")
+	}
+	if len(lhs) > 0 {
+		// the original body keeps its own block: it may redeclare the range variables
+		in.add(x.Body.Lbrace+1, strings.Join(lhs, ", ")+" "+x.Tok.String()+" "+strings.Join(rhs, ", ")+";{")
+		in.add(x.Body.Rbrace, "}")
 	}
 }
 
